@@ -30,6 +30,7 @@ type PointAssert struct {
 	Callee string // short callee name, e.g. "os.Remove"
 	Ord    int    // 1-based ordinal among calls to that callee in source order (0 = every)
 	Clause Clause
+	Before bool // evaluated in the state just before the call (arg0, arg1, ... name the arguments)
 }
 
 type ModTarget struct {
@@ -58,6 +59,7 @@ type FuncContract struct {
 	Decreases  *Clause         // function-level measure for (self-)recursive calls
 	GhostSets  []GhostSet      // ghost assignments performed on entry (specification state updated by this function)
 	OwnReads   []string        // heap key prefixes: plain loads from these keys must read objects allocated by this activation
+	Callbacks  map[string][]ModTarget // assumed frame of calls through a function-valued parameter (what any callback handed in may write)
 	GoOwns     []string        // captured variables of a goroutine body that only this goroutine touches while it runs: their cell and element storage survive its channel operations
 	AtomicOnly []string        // captured variables of a goroutine body that may only be accessed through sync/atomic: no plain load or store may touch their cell
 	Guards     []Guard         // lock discipline: plain accesses to these keys need the condition
@@ -147,7 +149,7 @@ func newContractSet() *ContractSet {
 	return &ContractSet{Funcs: map[string]*FuncContract{}, Specs: map[string]*SpecFunc{}, Axioms: map[string]*Axiom{}, Ghosts: map[string]*GhostVar{}}
 }
 
-var keywordRe = regexp.MustCompile(`^(func|property|requires|ensures|modifies|loop|assert|trusted|inline|nopanic|safety|spec|axiom|lemma|invariant|ghostset|ghost|use|reveal|calls|ownwrites|ownreads|abstract|atomiconly|goroutineowns|guarded|mapkeys|terminates|decreases|package)\b`)
+var keywordRe = regexp.MustCompile(`^(func|property|requires|ensures|modifies|loop|assert|trusted|inline|nopanic|safety|spec|axiom|lemma|invariant|ghostset|ghost|use|reveal|calls|ownwrites|ownreads|abstract|atomiconly|goroutineowns|callback|guarded|mapkeys|terminates|decreases|package)\b`)
 var labelRe = regexp.MustCompile(`^\[([A-Za-z0-9_.<>=%+\-]+)\]\s*(.*)$`)
 
 func canonFuncName(pkg, decl string) string {
@@ -319,9 +321,13 @@ func (cs *ContractSet) parseFile(path string, defaultPkg string) error {
 			if cur == nil {
 				return fmt.Errorf("%s:%d: assert outside func", path, it.line)
 			}
+			before := strings.HasPrefix(it.text, "before call ")
+			if before {
+				it.text = "after" + strings.TrimPrefix(it.text, "before")
+			}
 			m := regexp.MustCompile(`^after call (\S+?)(?:#(\d+|\*))?\s*:\s*(.*)$`).FindStringSubmatch(it.text)
 			if m == nil {
-				return fmt.Errorf("%s:%d: assert after call <callee>[#n]: <expr>", path, it.line)
+				return fmt.Errorf("%s:%d: assert after|before call <callee>[#n]: <expr>", path, it.line)
 			}
 			ord := 0
 			if m[2] == "*" {
@@ -337,7 +343,7 @@ func (cs *ContractSet) parseFile(path string, defaultPkg string) error {
 			if !strings.Contains(callee, ".") {
 				callee = pkg + "." + callee
 			}
-			cur.Asserts = append(cur.Asserts, PointAssert{Callee: callee, Ord: ord, Clause: c})
+			cur.Asserts = append(cur.Asserts, PointAssert{Callee: callee, Ord: ord, Clause: c, Before: before})
 		case "trusted":
 			if cur == nil {
 				return fmt.Errorf("%s:%d: trusted outside func", path, it.line)
@@ -433,6 +439,23 @@ func (cs *ContractSet) parseFile(path string, defaultPkg string) error {
 				return fmt.Errorf("%s:%d: atomiconly outside func", path, it.line)
 			}
 			cur.AtomicOnly = append(cur.AtomicOnly, strings.Fields(strings.ReplaceAll(it.text, ",", " "))...)
+		case "callback":
+			if cur == nil {
+				return fmt.Errorf("%s:%d: callback outside func", path, it.line)
+			}
+			f := strings.SplitN(it.text, " ", 3)
+			if len(f) < 3 || f[1] != "modifies" {
+				return fmt.Errorf("%s:%d: callback <parameter> modifies <targets>", path, it.line)
+			}
+			mts, err := parseModTargets(f[2])
+			if err != nil {
+				return fmt.Errorf("%s:%d: %v", path, it.line, err)
+			}
+			if cur.Callbacks == nil {
+				cur.Callbacks = map[string][]ModTarget{}
+			}
+			cur.Callbacks[f[0]] = append(cur.Callbacks[f[0]], mts...)
+			cs.TrustedList = append(cs.TrustedList, cur.Key+" (assumed frame of the callback "+f[0]+": modifies "+f[2]+")")
 		case "goroutineowns":
 			if cur == nil {
 				return fmt.Errorf("%s:%d: goroutineowns outside func", path, it.line)
